@@ -2,6 +2,7 @@ package merkle
 
 import (
 	"bytes"
+	"errors"
 	"fmt"
 
 	"github.com/tendermint/tendermint/crypto/tmhash"
@@ -93,8 +94,13 @@ func (op ValueOp) Run(args [][]byte) ([][]byte, error) {
 		return nil, fmt.Errorf("leaf hash mismatch: want %X got %X", op.Proof.LeafHash, kvhash)
 	}
 
+	rootHash := op.Proof.ComputeRootHash()
+	if rootHash == nil {
+		return nil, errors.New("invalid proof: cannot compute a root hash from index, total and aunts")
+	}
+
 	return [][]byte{
-		op.Proof.ComputeRootHash(),
+		rootHash,
 	}, nil
 }
 
